@@ -22,7 +22,9 @@ STATEMENTS = [
 VOCAB = ["SELECT", "FROM", "WHERE", "GROUP", "BY", "HAVING", "LIMIT", "CREATE", "TABLE", "NOT", "IS", "IN", "AND", "CASE", "WHEN", "END",
          "INNER", "JOIN", "ON", "EXTRACT", "DISTINCT", "AS", "k", "t", "count", "array", "1", "2.5", "99999999999999999999", "'s'", "'('", "NULL",
          "(", ")", "[", "]", "{", "}", ",", ";", ":", "::", "=>", "=", "-", "*", ".", "<", "!", "--", "'"]
-BAD = ["CREATE TABLE t('(' => x TEXT);",
+BAD = ["CREATE TABLE t(line = 'a', spare = '(', line[1] => x TEXT);",      # an invalid pattern that no column refers to
+       "CREATE TABLE t(spare = '[a', { .a } => x INT);",
+       "CREATE TABLE t('(' => x TEXT);",
        "CREATE TABLE t(line = '[a-', line[1] => x TEXT);",
        "CREATE TABLE t({ } => x INT);",
        "SELECT string_agg(k) FROM t",
